@@ -40,3 +40,42 @@ pub fn find(id: &str) -> Option<PropDef> {
 pub fn lookup_case(prop: &str, sub: &str) -> Option<Box<CaseFn<'static>>> {
     find(prop).and_then(|d| (d.case)(sub))
 }
+
+/// Sub-checks whose case function is also driven coverage-guided (libFuzzer over the choice
+/// sequence) in the thorough tier: (sub-check, longest choice sequence in words, relative cost
+/// class: runs are divided by it). Only in-process case functions qualify (no child processes, no
+/// external binaries, no allocation counting).
+pub fn fuzz_plan(prop: &str) -> Vec<(&'static str, usize, u32)> {
+    match prop {
+        "C01" => vec![("roundtrip", 1500, 2)],
+        "C02" => vec![("wellformed", 1500, 2)],
+        "C03" => vec![("conformant", 1500, 2)],
+        "C04" => vec![("render-read", 2500, 8), ("negative", 1200, 4)],
+        "C05" => vec![("write-read", 2500, 8)],
+        "C06" => vec![("import", 900, 4)],
+        "C07" => vec![("roundtrip", 900, 2)],
+        "C08" => vec![("compile", 700, 2), ("compile-asymmetric-flip", 700, 2)],
+        "C09" => vec![("programs", 400, 2), ("cyclic", 400, 2), ("arrays", 200, 1)],
+        "C12" => vec![("random-chains", 40, 1), ("flatten", 400, 1), ("general-angles", 60, 1)],
+        "C13" => vec![("polygons-random", 200, 1), ("paths", 60, 1)],
+        "C14" => vec![("raw-proto-raw", 1200, 2), ("proto-raw-proto", 1200, 2)],
+        "C15" => vec![("random-doubles", 32 * 8, 1), ("random-reals", 32 * 9, 1), ("records", 40, 1)],
+        "C16" => vec![("import", 1500, 4)],
+        "C17" => vec![("generic-random", 1500, 2), ("raw-cells", 900, 2), ("gds-structs", 900, 2), ("tetris-cells", 900, 2), ("tetris-proto-export", 900, 2), ("placement", 700, 2)],
+        "C18" => vec![("gds-markup", 1800, 8), ("lef-markup", 2600, 8), ("scalars", 120, 2)],
+        "C19" => vec![("roundtrip", 500, 2), ("negative", 520, 2)],
+        "C20" => vec![("raw-to-gds", 900, 8), ("raw-to-proto", 900, 8), ("gds-to-raw", 900, 8), ("lef-raw-lef", 900, 8), ("tetris-to-raw-gds-proto", 900, 8)],
+        _ => vec![],
+    }
+}
+/// Seed corpus for the coverage-guided stage: `n` random choice sequences (little-endian words)
+pub fn dump_choice_corpus(prop: &str, sub: &str, dir: &str, n: usize) {
+    let _ = std::fs::create_dir_all(dir);
+    let words = fuzz_plan(prop).iter().find(|p| p.0 == sub).map(|p| p.1).unwrap_or(256);
+    for (i, v) in crate::engine::draw_vectors(crate::engine::env_seed(), &format!("{}-{}-corpus", prop, sub), n, words).iter().enumerate() {
+        // a spread of lengths: the generators read zeros past the end
+        let keep = words * (i + 1) / n;
+        let bytes: Vec<u8> = v[..keep.max(1).min(v.len())].iter().flat_map(|w| w.to_le_bytes()).collect();
+        let _ = std::fs::write(format!("{}/seed-{:04}", dir, i), bytes);
+    }
+}
